@@ -6,6 +6,7 @@ import (
 	"fmt"
 	"go/ast"
 	"go/constant"
+	"go/printer"
 	"go/token"
 	"go/types"
 	"math/big"
@@ -390,6 +391,9 @@ func (ce *CEnv) evalIndex(n *ast.IndexExpr) (Val, error) {
 	idx := ce.toIdx(iv)
 	switch u := base.T.Underlying().(type) {
 	case *types.Slice:
+		if base.CS != nil {
+			return ce.x.loadWF(base.CS, elemLVal(base, idx)), nil
+		}
 		return ce.x.loadWF(ce.st, elemLVal(base, idx)), nil
 	case *types.Array:
 		out := Val{T: u.Elem()}
@@ -429,7 +433,9 @@ func (ce *CEnv) evalSlice(n *ast.SliceExpr) (Val, error) {
 		}
 		hi = ce.toIdx(v)
 	}
-	return mkSlice(base.T, base.Arr(), BVBin("bvadd", base.Off(), lo), BVBin("bvsub", hi, lo), BVBin("bvsub", base.Cap(), lo)), nil
+	r := mkSlice(base.T, base.Arr(), BVBin("bvadd", base.Off(), lo), BVBin("bvsub", hi, lo), BVBin("bvsub", base.Cap(), lo))
+	r.CS = base.CS
+	return r, nil
 }
 
 // lvalue evaluates an addressable contract expression to an address.
@@ -539,6 +545,9 @@ func (ce *CEnv) ghostUpdate(g *Clause) error {
 
 func convertConst(v Val, to types.Type) Val {
 	if w, _, ok := isIntType(to); ok {
+		if v.C[0].Op != "bvconst" {
+			return Val{T: to, C: []*Term{SignExt(v.C[0], w)}}
+		}
 		return Val{T: to, C: []*Term{BVConstBig(v.C[0].Signed(), w)}}
 	}
 	return v
@@ -689,24 +698,48 @@ func (ce *CEnv) evalBinary(n *ast.BinaryExpr) (Val, error) {
 	return Val{}, fmt.Errorf("unsupported operator %s", n.Op)
 }
 
-func (ce *CEnv) contentAt(v Val) (func(i *Term) *Term, *Term, error) {
+type seqView struct {
+	at   func(abs *Term) *Term // element at an absolute index of the underlying array / string
+	base *Term                 // absolute index of element 0
+	ln   *Term
+}
+
+func (ce *CEnv) contentAt(v Val) (*seqView, error) {
 	switch u := v.T.Underlying().(type) {
 	case *types.Slice:
 		names, sorts := elemMaps(ce.st, v.T)
 		if len(names) != 1 {
-			return nil, nil, fmt.Errorf("content of %s", typeKey(v.T))
+			return nil, fmt.Errorf("content of %s", typeKey(v.T))
 		}
-		h := ce.st.heapMap(names[0], ArraySort(IntSort, ArraySort(BV64, sorts[0])))
-		A := Select(h, v.Arr())
-		off := v.Off()
-		return func(i *Term) *Term { return Select(A, BVBin("bvadd", off, i)) }, v.Len(), nil
+		cst := ce.st
+		if v.CS != nil {
+			cst = v.CS
+		}
+		h := cst.heapMap(names[0], ArraySort(IntSort, ArraySort(BV64, sorts[0])))
+		A := NameArray(Select(h, v.Arr()))
+		return &seqView{at: func(j *Term) *Term { return Select(A, j) }, base: v.Off(), ln: v.Len()}, nil
 	case *types.Basic:
 		if u.Info()&types.IsString != 0 {
 			sid := v.C[0]
-			return func(i *Term) *Term { return sbyte(sid, i) }, slen(sid), nil
+			return &seqView{at: func(j *Term) *Term { return sbyte(sid, j) }, base: bv64(0), ln: slen(sid)}, nil
 		}
 	}
-	return nil, nil, fmt.Errorf("no content for %s", typeKey(v.T))
+	return nil, fmt.Errorf("no content for %s", typeKey(v.T))
+}
+
+// rangeEq: forall j in [lo, lo+n): left.at(j) == right(j - lo)   (quantified over the absolute index of left)
+func rangeEq(left *seqView, lo, n *Term, right func(rel *Term) *Term) *Term {
+	if n.Op == "bvconst" && n.Val.IsInt64() && n.Val.Int64() <= 16 {
+		var conj []*Term
+		for k := int64(0); k < n.Val.Int64(); k++ {
+			conj = append(conj, Eq(left.at(BVBin("bvadd", lo, bv64(k))), right(bv64(k))))
+		}
+		return And(conj...)
+	}
+	qcount++
+	j := BoundVar(fmt.Sprintf("j!q%d", qcount), BV64)
+	body := Implies(And(BVCmp("bvsle", lo, j), BVCmp("bvslt", j, BVBin("bvadd", lo, n))), Eq(left.at(j), right(BVBin("bvsub", j, lo))))
+	return Forall([]*Term{j}, body, []*Term{left.at(j)})
 }
 
 var qcount int
@@ -718,7 +751,13 @@ func (ce *CEnv) evalCall(n *ast.CallExpr) (Val, error) {
 		case "old":
 			c2 := *ce
 			c2.st = ce.old
-			return c2.eval(n.Args[0])
+			v, err := c2.eval(n.Args[0])
+			if err == nil {
+				if _, ok := v.T.Underlying().(*types.Slice); ok && v.CS == nil {
+					v.CS = ce.old
+				}
+			}
+			return v, err
 		case "atloop":
 			if ce.loopEntry == nil {
 				return Val{}, fmt.Errorf("atloop outside of a loop clause")
@@ -789,18 +828,15 @@ func (ce *CEnv) evalCall(n *ast.CallExpr) (Val, error) {
 			if err != nil {
 				return Val{}, err
 			}
-			fa, la, err := ce.contentAt(a)
+			va, err := ce.contentAt(a)
 			if err != nil {
 				return Val{}, err
 			}
-			fb, lb, err := ce.contentAt(b)
+			vb, err := ce.contentAt(b)
 			if err != nil {
 				return Val{}, err
 			}
-			qcount++
-			i := BoundVar(fmt.Sprintf("i!q%d", qcount), BV64)
-			body := Implies(And(BVCmp("bvsle", bv64(0), i), BVCmp("bvslt", i, la)), Eq(fa(i), fb(i)))
-			return bval(And(Eq(la, lb), Forall([]*Term{i}, body, patternsFor(body, i)...))), nil
+			return bval(And(Eq(va.ln, vb.ln), rangeEq(va, va.base, va.ln, func(rel *Term) *Term { return vb.at(BVBin("bvadd", vb.base, rel)) }))), nil
 		case "is_cat":
 			return ce.evalIsCat(n)
 		case "isnew":
@@ -818,6 +854,18 @@ func (ce *CEnv) evalCall(n *ast.CallExpr) (Val, error) {
 				return Val{}, fmt.Errorf("isnewloop outside of a loop clause")
 			}
 			return bval(IntCmp("<", a.C[0], ce.loopEntry.allocW)), nil
+		case "arr":
+			a, err := ce.eval(n.Args[0])
+			if err != nil {
+				return Val{}, err
+			}
+			return Val{T: types.Typ[types.UnsafePointer], C: []*Term{a.C[0]}}, nil
+		case "off":
+			a, err := ce.eval(n.Args[0])
+			if err != nil {
+				return Val{}, err
+			}
+			return Val{T: intT, C: []*Term{a.C[1]}}, nil
 		case "samearr":
 			a, err := ce.eval(n.Args[0])
 			if err != nil {
@@ -1044,13 +1092,17 @@ func (ce *CEnv) evalIsCat(n *ast.CallExpr) (Val, error) {
 	if err != nil {
 		return Val{}, err
 	}
-	fs, ls, err := ce.contentAt(s)
+	sv, err := ce.contentAt(s)
 	if err != nil {
 		return Val{}, err
 	}
-	pos := bv64(0)
+	pos := sv.base
 	var conj []*Term
+	var parts []ast.Expr
 	for _, pe := range n.Args[1:] {
+		parts = append(parts, expandSeqPart(pe)...)
+	}
+	for _, pe := range parts {
 		if call, ok := pe.(*ast.CallExpr); ok {
 			if id, ok := call.Fun.(*ast.Ident); ok && id.Name == "rep" {
 				bv, err := ce.eval(call.Args[0])
@@ -1065,11 +1117,8 @@ func (ce *CEnv) evalIsCat(n *ast.CallExpr) (Val, error) {
 					bv = convertConst(bv, types.Typ[types.Uint8])
 				}
 				cnt := ce.toIdx(nv)
-				qcount++
-				i := BoundVar(fmt.Sprintf("i!r%d", qcount), BV64)
-				p0 := pos
-				body := Implies(And(BVCmp("bvsle", bv64(0), i), BVCmp("bvslt", i, cnt)), Eq(fs(BVBin("bvadd", p0, i)), bv.C[0]))
-				conj = append(conj, BVCmp("bvsle", bv64(0), cnt), Forall([]*Term{i}, body, patternsFor(body, i)...))
+				b0 := bv.C[0]
+				conj = append(conj, BVCmp("bvsle", bv64(0), cnt), rangeEq(sv, pos, cnt, func(*Term) *Term { return b0 }))
 				pos = BVBin("bvadd", pos, cnt)
 				continue
 			}
@@ -1081,28 +1130,65 @@ func (ce *CEnv) evalIsCat(n *ast.CallExpr) (Val, error) {
 		if isUntyped(pv) {
 			pv = convertConst(pv, types.Typ[types.Uint8])
 		}
-		if pv.C[0].Sort == BV8 && len(pv.C) == 1 {
-			conj = append(conj, Eq(fs(pos), pv.C[0]))
+		if len(pv.C) == 1 && pv.C[0].Sort == BV8 {
+			conj = append(conj, Eq(sv.at(pos), pv.C[0]))
 			pos = BVBin("bvadd", pos, bv64(1))
 			continue
 		}
-		fp, lp, err := ce.contentAt(pv)
+		pvw, err := ce.contentAt(pv)
 		if err != nil {
 			return Val{}, err
 		}
-		if lp.Op == "bvconst" && lp.Val.IsInt64() && lp.Val.Int64() <= 16 {
-			for j := int64(0); j < lp.Val.Int64(); j++ {
-				conj = append(conj, Eq(fs(BVBin("bvadd", pos, bv64(j))), fp(bv64(j))))
-			}
-		} else {
-			qcount++
-			i := BoundVar(fmt.Sprintf("i!c%d", qcount), BV64)
-			p0 := pos
-			body := Implies(And(BVCmp("bvsle", bv64(0), i), BVCmp("bvslt", i, lp)), Eq(fs(BVBin("bvadd", p0, i)), fp(i)))
-			conj = append(conj, Forall([]*Term{i}, body, patternsFor(body, i)...))
-		}
-		pos = BVBin("bvadd", pos, lp)
+		conj = append(conj, rangeEq(sv, pos, pvw.ln, func(rel *Term) *Term { return pvw.at(BVBin("bvadd", pvw.base, rel)) }))
+		pos = BVBin("bvadd", pos, pvw.ln)
 	}
-	conj = append(conj, Eq(ls, pos))
+	conj = append(conj, Eq(BVBin("bvadd", sv.base, sv.ln), pos))
 	return bval(And(conj...)), nil
+}
+
+func mustExpr(s string) ast.Expr {
+	e, err := parseCExpr(s)
+	if err != nil {
+		panic(err)
+	}
+	return e
+}
+
+func exprText(e ast.Expr) string {
+	var sb strings.Builder
+	printer.Fprint(&sb, token.NewFileSet(), e)
+	return sb.String()
+}
+
+// expandSeqPart rewrites the sequence constructors be32seq(x), be64seq(x), hdrseq(tag, typ, len) into byte parts.
+func expandSeqPart(pe ast.Expr) []ast.Expr {
+	call, ok := pe.(*ast.CallExpr)
+	if !ok {
+		return []ast.Expr{pe}
+	}
+	id, ok := call.Fun.(*ast.Ident)
+	if !ok {
+		return []ast.Expr{pe}
+	}
+	switch id.Name {
+	case "be32seq":
+		x := exprText(call.Args[0])
+		var out []ast.Expr
+		for _, sh := range []int{24, 16, 8, 0} {
+			out = append(out, mustExpr(fmt.Sprintf("uint8(uint32(%s)>>%d)", x, sh)))
+		}
+		return out
+	case "be64seq":
+		x := exprText(call.Args[0])
+		var out []ast.Expr
+		for _, sh := range []int{56, 48, 40, 32, 24, 16, 8, 0} {
+			out = append(out, mustExpr(fmt.Sprintf("uint8(uint64(%s)>>%d)", x, sh)))
+		}
+		return out
+	case "hdrseq":
+		tag, typ, ln := exprText(call.Args[0]), exprText(call.Args[1]), exprText(call.Args[2])
+		out := []ast.Expr{mustExpr(fmt.Sprintf("uint8((%s)>>16)", tag)), mustExpr(fmt.Sprintf("uint8((%s)>>8)", tag)), mustExpr(fmt.Sprintf("uint8(%s)", tag)), mustExpr(fmt.Sprintf("uint8(%s)", typ))}
+		return append(out, expandSeqPart(mustExpr(fmt.Sprintf("be32seq(uint32(%s))", ln)))...)
+	}
+	return []ast.Expr{pe}
 }
